@@ -437,6 +437,21 @@ theorem strong_covered :
       (testedOnlyStrong.map Prod.fst).contains r.obj) = true := by
   decide
 
+/-- the VALUE of the declared coefficient is the one the theorems carry: 2 (bits 0x4000…) for sphere, axis-ellipsoid, the
+    euclidean ball (and the functional constraint wrapping sphere); `2 / dims` for exponential — checked on the dumped
+    dimensions that are powers of two, where `2 / 2^k = 2^(1-k)` has the bit pattern `(1024 - k) · 2^52` -/
+def expectedMuBits (r : Row) : Option Nat :=
+  if [Obj.fn_sphere, .fn_axis_ellipsoid, .ct_ball_eq, .ct_ball_ineq, .ct_functional_eq_sphere,
+      .ct_functional_ineq_sphere].contains r.obj then some 0x4000000000000000
+  else if r.obj = .fn_exponential then
+    (if r.dims = 2 ^ r.dims.log2 then some ((1024 - r.dims.log2) * 2 ^ 52) else none)
+  else none
+
+set_option maxRecDepth 100000 in
+theorem strong_values_covered :
+    (rows.all fun r => match expectedMuBits r with | some b => r.muBits == b | none => true) = true := by
+  decide
+
 /-! ## non-vacuity -/
 
 -- the table is not empty and contains convex, non-convex, strongly convex rows
@@ -444,6 +459,8 @@ set_option maxRecDepth 100000 in
 example : rows.length > 300 ∧ (rows.any fun r => r.convex) ∧ (rows.any fun r => !r.convex) ∧
     (rows.any fun r => r.strong) := by decide
 -- rosenbrock is declared non-convex and is on no list: flipping its flag makes `flags_covered` false
+set_option maxRecDepth 100000 in
+example : (rows.filter fun r => (expectedMuBits r).isSome).length ≥ 20 := by decide
 example : ¬ provenConvex.contains Obj.fn_rosenbrock ∧ ¬ (testedOnly.map Prod.fst).contains Obj.fn_rosenbrock := by decide
 
 -- hinge on both sides of and on the kink (t = 1): value and sub-gradient as coded
